@@ -1,7 +1,7 @@
 #!/bin/bash
 # Usage: tools/run_all.sh [quick|thorough] [seed]   — runs every check, prints one line per check.
 TIER="${1:-quick}"; export VERIF_SEED="${2:-1}"
-cd /verif
+cd "$(dirname "$0")/.."
 for i in $(seq -w 1 18); do
   id="C$i"
   s=$(date +%s.%N)
